@@ -123,6 +123,29 @@ type space struct {
 	pool    []*Prof
 	total   int
 	seqLens []int
+
+	// boundary classes derived from the numeric limits found in the anchored code (limits.go)
+	scan      *limitScan
+	deep      []*Prof   // single profiles with stacks at the boundary depths
+	deepSeqs  [][]*Prof // merge sequences containing them
+	nPoolSeqs int
+}
+
+// deepProfiles: for every boundary depth two profiles, each with a normal shallow sample next to the deep one:
+// A = the three functions in rotation (so every function recurs), B = one function repeated (pure recursion).
+func deepProfiles(depths []int) (single []*Prof, seqs [][]*Prof, pool1 *Prof) {
+	for _, d := range depths {
+		rot := make([]int, d)
+		rec := make([]int, d)
+		for i := range rot {
+			rot[i] = (d - 1 - i) % 3 // leaf first; the root is always L0
+		}
+		a := &Prof{NTypes: 2, Samples: []Smp{{Stack: rot, Vals: []int64{5, 1}}, {Stack: []int{1, 0}, Vals: []int64{1, 5}}}}
+		b := &Prof{NTypes: 2, Samples: []Smp{{Stack: rec, Vals: []int64{1, 5}}, {Stack: []int{0}, Vals: []int64{5, 1}}}}
+		single = append(single, a, b)
+		seqs = append(seqs, []*Prof{a, nil}, []*Prof{b, a})
+	}
+	return
 }
 
 func (s *space) seqAt(i int) []int {
@@ -162,7 +185,15 @@ func buildSpace(thorough bool) *space {
 		s.pool = poolProfiles(20)
 	}
 	n := len(s.pool)
-	s.total = s.p1 + n + n*n + n*n*n
+	s.nPoolSeqs = n + n*n + n*n*n
+	s.scan = scanLimits()
+	s.deep, s.deepSeqs, _ = deepProfiles(s.scan.Depths)
+	for _, q := range s.deepSeqs {
+		if q[1] == nil {
+			q[1] = s.pool[1] // a deep profile merged with a normal one that shares its root
+		}
+	}
+	s.total = s.p1 + len(s.deep) + s.nPoolSeqs + len(s.deepSeqs)
 	return s
 }
 
@@ -172,6 +203,7 @@ func (s *space) describe() map[string]any {
 		m[f.name] = fmt.Sprintf("%d stacks, %d multisets of %d samples x %d value assignments = %d profiles (parsers: %d)", len(f.stacks), len(f.sets), f.k, f.nvals, f.size, f.vias)
 	}
 	n := len(s.pool)
+	m["boundary-depth"] = fmt.Sprintf("%d stack depths %v x {3 functions in rotation, pure recursion} + a shallow sample = %d profiles (3 parsers x 4 deliveries), %d merge sequences", len(s.scan.Depths), s.scan.Depths, len(s.deep), len(s.deepSeqs))
 	m["merge"] = fmt.Sprintf("pool of %d profiles: %d ordered sequences of 1..3 profiles", n, n+n*n+n*n*n)
 	return m
 }
